@@ -80,6 +80,18 @@ def chain_cases(q):
         "prog %d start read 1 1 %d" % (rd(0), rd(1)), "prog %d start read 2 1 %d" % (rd(1), rd(2)), "prog %d start read 0 1 %d" % (rd(2), rd(0)),
         "peer 0 data 40", "peer 1 data 40", "peer 2 data 40", "start read 0 1 %d" % rd(0)] + ["pollone"] * 6 + ["cancel 0", "cancel 1", "cancel 2"]
     cases.append(("case", ops))
+    # listener: chains of accepts with connections queued (its own copy of the dispatch logic), from top level and from a
+    # poller-dispatched completion, and mixed with reads on a socket
+    for n in (40, 33, 70):
+        ops = setup(["lsn"]) + ["prog %d start read 0 1 %d" % (rd(0), rd(0)), "peer 0 data %d" % n, "start read 0 1 %d" % rd(0)] + ["pollone"] * 4 + ["close 0"]
+        cases.append(("case", ops))
+        ops = setup(["lsn"]) + ["prog %d start read 0 1 %d" % (rd(0), rd(0)), "start read 0 1 %d" % rd(0), "peer 0 data %d" % n] + ["pollone"] * 4 + ["close 0"]
+        cases.append(("case", ops))
+    ops = setup(["lsn", "sock"]) + ["prog %d start read 1 1 %d" % (rd(0), rd(1)), "prog %d start read 0 1 %d" % (rd(1), rd(0)),
+                                    "peer 0 data 40", "peer 1 data 40", "start read 1 1 %d" % rd(1)] + ["pollone"] * 4 + ["close 0", "cancel 1"]
+    cases.append(("case", ops))
+    for d0 in (31, 32, 33):
+        cases.append(("case", setup(["lsn"]) + ["peer 0 data 2", "depth %d" % d0, "start read 0 1 %d" % rd(0), "depth 0", "pollone", "pollone", "close 0"]))
     # regular file at the dispatch limit (deferral needs epoll, which refuses regular files)
     ops = setup(["reg"]) + ["prog %d start read 0 1 %d" % (rd(0), rd(0)), "start read 0 1 %d" % rd(0), "pollone"]
     cases.append(("case", ops))
